@@ -503,12 +503,22 @@ func (ie IfExpression) printElse(out *PrintState) {
 	} else {
 		out.Print(" else ")
 	}
-	if len(ie.Alternative.Statements) == 1 && ie.Alternative.Statements[0].Value().Type() == token.IF {
+	stmts := ie.Alternative.Statements
+	if out.Compact {
+		// comments are not printed: `else { /* c */ if b {} }` printed as `else{if b{}}` would be `else if b{}` the next time.
+		stmts = nil
+		for _, s := range ie.Alternative.Statements {
+			if !isComment(s) {
+				stmts = append(stmts, s)
+			}
+		}
+	}
+	if len(stmts) == 1 && stmts[0].Value().Type() == token.IF {
 		// else if
 		if out.Compact {
 			out.Print(" ")
 		}
-		ie.Alternative.Statements[0].PrettyPrint(out)
+		stmts[0].PrettyPrint(out)
 		return
 	}
 	ie.Alternative.PrettyPrint(out)
